@@ -114,7 +114,7 @@ def _column(exact, xs):
         "iqr": [num(iqr, absmean)],
     }
     # not statistics named by the statement; checked only on their defined domain
-    acc["cvstd"] = [num(_sqrt(var) / float(mean), rel=1e-10)] if float(mean) > FLOOR * (1 + 1e-9) else [ANY]
+    acc["cvstd"] = [num(_sqrt(var) / float(mean), math.sqrt(sq) / float(mean), rel=1e-10)] if float(mean) > FLOOR * (1 + 1e-9) else [ANY]
     m2 = float(var)
     safe = m2 > 1e-6 * sq and m2 > 1e-12
     if n >= 3 and safe:
@@ -223,8 +223,8 @@ def t_quantile(prob, dof):
     if prob < 0.5:
         return -t_quantile(1 - prob, dof)
 
-    def cdf(t):
-        return 1 - 0.5 * float(betainc(dof / 2.0, 0.5, dof / (dof + t * t)))
+    def cdf(t):  # complementary form: no cancellation for large dof
+        return 0.5 + 0.5 * float(betainc(0.5, dof / 2.0, t * t / (dof + t * t)))
 
     lo, hi = 0.0, 1.0
     while cdf(hi) < prob:
@@ -298,8 +298,9 @@ def baseline_reference(obs, pred, p, sign=1, reported_n_prime=None):
         acc["n_prime"] = [UNDEF, num(1)]  # denominator 1+rho is zero
         info["n_prime_class"] = "rho=-1"
     else:
-        v = 0.0 if omz else n * (1 - rho) / (1 + rho)
-        acc["n_prime"] = [("num", v, max(1e-12, 4e-15 / (1 + rho)) * max(abs(v), n))]
+        v = 0.0 if (omz and A.exact) else n * (1 - rho) / (1 + rho)
+        # conditioning-aware: d n'/d rho = -2n/(1+rho)^2
+        acc["n_prime"] = [("num", v, 1e-12 * max(abs(v), n) + n * 2e-14 / (1 + rho) ** 2)]
         info["n_prime_class"] = "rho=+1" if omz else "regular"
     npr = reported_n_prime
     if npr is None or not isinstance(npr, (int, float)) or not math.isfinite(npr):
@@ -425,7 +426,7 @@ def caltrack_reference(obs, pred, p, confidence, reported):
         for den in (float(r["mean"]), r["absmean"]):
             if den > FLOOR * (1 + 1e-9):
                 for dd in (0, 1):
-                    outs.append(num(_sqrt(float(r["var"]) * n / (n - dd)) / den, rel=1e-10))
+                    outs.append(num(_sqrt(float(r["var"]) * n / (n - dd)) / den, r["absmean"] / den, rel=1e-10))
         acc[f"{nm}_cvstd"] = outs or [ANY]
     r2 = corr_squared(A, q, o)
     acc["r_squared"] = [NONFINITE] if r2 is None else [num(r2, 1.0, rel=1e-11)]
@@ -483,9 +484,9 @@ def caltrack_reference(obs, pred, p, confidence, reported):
             info["n_prime_class"] = "rho=-1"
         else:
             outs = []
-            for N in {n, int(reported.get("observed_length") or n)}:
-                v = 0.0 if omz else N * (1 - rho) / (1 + rho)
-                outs.append(("num", v, max(1e-12, 4e-15 / (1 + rho)) * max(abs(v), N)))
+            for N in sorted({n, int(reported.get("observed_length") or n)}):
+                v = N * (1 - rho) / (1 + rho)
+                outs.append(("num", v, 1e-12 * max(abs(v), N) + N * 2e-14 / (1 + rho) ** 2))
             acc["n_prime"] = outs
             info["n_prime_class"] = "rho=+1" if omz else "regular"
     acc["single_tailed_confidence_level"] = [num(1 - (1 - confidence) / 2)]
@@ -502,9 +503,9 @@ def caltrack_reference(obs, pred, p, confidence, reported):
         acc["t_stat"] = [num(t, rel=1e-9)] if math.isfinite(t) else [NONFINITE]
         if npr - p < 1 or dof < 1 or not math.isfinite(t) or rmse_adj is None:
             for k in ("cvrmse_auto_corr_correction", "approx_factor_auto_corr_correction", "fsu_base_term"):
-                acc[k] = [NONFINITE, ANY] if k != "fsu_base_term" else [NONFINITE]
+                acc[k] = [ANY]
         else:
-            Ns = {n, int(reported.get("observed_length") or n)}
+            Ns = sorted({n, int(reported.get("observed_length") or n)})
             corr = [math.sqrt((N - p) / (npr - p)) for N in Ns if N - p >= 0]
             acc["cvrmse_auto_corr_correction"] = [num(c, rel=1e-10) for c in corr]
             ap = math.sqrt(1 + 2 / npr)
